@@ -125,9 +125,9 @@ func cmdCheck(args []string) {
 		os.Exit(2)
 	}
 	t0 := time.Now()
-	timeout := 25
+	timeout := 60
 	if *tier == "thorough" {
-		timeout = 120
+		timeout = 240
 	}
 	outDir := filepath.Join("/verif/out", *prop)
 	os.RemoveAll(outDir)
@@ -286,6 +286,15 @@ func cmdCheck(args []string) {
 		fmt.Printf("lock written: %d obligations for %s\n", len(names), *prop)
 	}
 	writeEvidence(*prop, *tier, seed, units, undecided, knownHit, time.Since(t0), violations, "", all)
+	if os.Getenv("GOCV_TIMINGS") != "" {
+		var sb strings.Builder
+		for _, o := range all {
+			if o.Result != nil {
+				fmt.Fprintf(&sb, "%d\t%s\t%s\t%s\n", o.Result.Ms, o.Result.Status, o.Result.Solver, o.Name)
+			}
+		}
+		os.WriteFile(os.Getenv("GOCV_TIMINGS"), []byte(sb.String()), 0o644)
+	}
 	if *verbose {
 		for _, u := range units {
 			fmt.Printf("unit %s: %d obligations\n", u.Unit, len(u.Obls))
